@@ -177,6 +177,15 @@ func (w *World) scanSet(sd *ScanDecl) (map[string]bool, error) {
 							hit = true
 						}
 					}
+				case "methodcalls":
+					// every (function, method) pair where a method of the named type is called statically
+					if ci, ok := in.(ssa.CallInstruction); ok {
+						if f := ci.Common().StaticCallee(); f != nil && f.Signature.Recv() != nil {
+							if typeKey(f.Signature.Recv().Type()) == sd.Target || typeKey(f.Signature.Recv().Type()) == "*"+sd.Target {
+								out[k+":"+f.Name()] = true
+							}
+						}
+					}
 				case "calls-of-type":
 					if ci, ok := in.(ssa.CallInstruction); ok {
 						c := ci.Common()
